@@ -55,7 +55,10 @@ type rconn struct {
 	nrep   int
 	sent   map[int][]byte // reply number -> bytes (to recognise what the client returns)
 	epoch  time.Time
+	failNext bool         // the next write fails (link down for a moment): nothing is transmitted
 }
+
+var errLinkDown = errors.New("write: network is down")
 
 var errClosed = errors.New("use of closed network connection")
 
@@ -80,6 +83,10 @@ func (c *rconn) ReadFrom(b []byte) (int, net.Addr, error) {
 func (c *rconn) WriteTo(b []byte, addr net.Addr) (int, error) {
 	c.mu.Lock()
 	defer c.mu.Unlock()
+	if c.failNext {
+		c.failNext = false
+		return 0, errLinkDown
+	}
 	c.txs = append(c.txs, tx{append([]byte(nil), b...), addr.String(), time.Since(c.epoch)})
 	i := len(c.txs) - 1
 	if i < len(c.script) {
@@ -196,6 +203,70 @@ func (c *rconn) build(r reply, req []byte, n int) []byte {
 	}
 	return m.ToBytes()
 }
+
+// rawWrap puts the scripted connection under nclient4's raw-socket layer (the stack nclient4.New builds): replies arrive
+// as IPv4+UDP frames whose header fields that do not identify the datagram vary (TOS, identification, DF, TTL, padding),
+// the client's frames are unwrapped again
+type rawWrap struct {
+	c *rconn
+	n uint32
+}
+
+func ipsum(b []byte) uint16 {
+	var v uint32
+	for i := 0; i+1 < len(b); i += 2 {
+		v += uint32(b[i])<<8 | uint32(b[i+1])
+	}
+	for v>>16 != 0 {
+		v = v&0xffff + v>>16
+	}
+	return ^uint16(v)
+}
+
+func (r *rawWrap) ReadFrom(b []byte) (int, net.Addr, error) {
+	tmp := make([]byte, 65536)
+	n, _, err := r.c.ReadFrom(tmp)
+	if err != nil {
+		return 0, nil, err
+	}
+	r.n = r.n*1664525 + 1013904223
+	h := r.n >> 9
+	total := 28 + n
+	f := make([]byte, total, total+8)
+	f[0], f[1] = 0x45, byte(h)
+	f[2], f[3] = byte(total>>8), byte(total)
+	f[4], f[5] = byte(h>>8), byte(h>>16)
+	if h%2 == 0 {
+		f[6] = 0x40 // don't fragment, as most stacks send
+	}
+	f[8], f[9] = byte(1+h%250), 17
+	copy(f[12:16], []byte{10, 0, 0, 1})
+	copy(f[16:20], []byte{255, 255, 255, 255})
+	c := ipsum(f[:20])
+	f[10], f[11] = byte(c>>8), byte(c)
+	f[20], f[21], f[22], f[23] = 0, 67, 0, 68
+	f[24], f[25] = byte((8+n)>>8), byte(8+n)
+	copy(f[28:], tmp[:n])
+	if h%3 == 0 {
+		f = append(f, 0xaa, 0xbb, 0xcc)[:total+int(h%4)]
+	}
+	return copy(b, f), &net.UDPAddr{}, nil
+}
+func (r *rawWrap) WriteTo(b []byte, _ net.Addr) (int, error) {
+	if len(b) < 28 || b[0] != 0x45 {
+		return r.c.WriteTo(b, &net.UDPAddr{})
+	}
+	n, err := r.c.WriteTo(b[28:], &net.UDPAddr{IP: net.IP(append([]byte(nil), b[16:20]...)), Port: int(b[22])<<8 | int(b[23])})
+	if err != nil {
+		return 0, err
+	}
+	return n + 28, nil
+}
+func (r *rawWrap) Close() error                       { return r.c.Close() }
+func (r *rawWrap) LocalAddr() net.Addr                { return r.c.LocalAddr() }
+func (r *rawWrap) SetDeadline(t time.Time) error      { return nil }
+func (r *rawWrap) SetReadDeadline(t time.Time) error  { return nil }
+func (r *rawWrap) SetWriteDeadline(t time.Time) error { return nil }
 
 // id of a reply inside a packet returned by the client (0 = none / nil)
 func id4(p *dhcpv4.DHCPv4) int {
@@ -332,7 +403,11 @@ func run4(c struct {
 	case 2:
 		opts4 = append(opts4, nclient4.WithDebugLogger())
 	}
-	cl, err := nclient4.NewWithConn(conn, mac, opts4...)
+	var pc net.PacketConn = conn
+	if ch/128%3 == 1 {
+		pc = nclient4.NewBroadcastUDPConn(&rawWrap{c: conn, n: uint32(ch)}, &net.UDPAddr{Port: 68}) // on the raw-socket layer
+	}
+	cl, err := nclient4.NewWithConn(pc, mac, opts4...)
 	if err != nil {
 		panic(err)
 	}
@@ -362,7 +437,7 @@ func run4(c struct {
 			res = result{Kind: "err", Err: err.Error()}
 		}
 	}()
-	out := map[string]any{"proto": 4, "tries": c.Tries, "res": res, "cfg": map[string]any{"srv": srv, "mac": bs(hw)}}
+	out := map[string]any{"proto": 4, "tries": c.Tries, "res": res, "cfg": map[string]any{"srv": srv, "mac": bs(hw), "raw": ch/128%3 == 1}}
 	txs := []any{}
 	for _, t := range conn.txs {
 		e := map[string]any{"dest": t.dest, "at": int(t.t / time.Second), "len": len(t.b)}
@@ -388,6 +463,19 @@ func run4(c struct {
 		conn.mu.Lock()
 		conn.script = append(conn.script[:ntx:ntx], []reply{{T: "nak", Sid: "B", Ok: true}, {T: "ack", Sid: lease0sid(lease), Ok: true, A: 4}})
 		conn.mu.Unlock()
+		if ch/32%2 == 1 {
+			// the link is down for a moment: a renewal fails on its first write, nothing is transmitted - and nothing is
+			// left behind: the renewal that follows is a renewal like any other
+			conn.mu.Lock()
+			conn.failNext = true
+			n0 := len(conn.txs)
+			conn.mu.Unlock()
+			_, e0 := cl.Renew(context.Background(), lease, userMods...)
+			conn.mu.Lock()
+			out["renew0"] = map[string]any{"err": e0 != nil, "ntx": len(conn.txs) - n0}
+			conn.failNext = false
+			conn.mu.Unlock()
+		}
 		renewed, rerr := cl.Renew(context.Background(), lease, userMods...)
 		rr := map[string]any{"ok": rerr == nil}
 		if rerr == nil {
